@@ -485,4 +485,78 @@ theorem step_progress {votes : Profile} {cfg : Cfg} {n : Nat} (hh : TotalHyp cfg
           · simp only [advance, hsum]; omega
           · simp only [advance, hsum]; omega
 
+
+/-! ### the run terminates with all seats filled, or refuses -/
+
+theorem run_total {votes : Profile} {cfg : Cfg} {n : Nat} (hh : TotalHyp cfg votes n) {ds : List Draw} :
+    ∀ (fuel : Nat) (st : St), Reach gregory cfg (selectorInput votes n) ds st →
+      (st.final = true ∨ (sumSeats st.seats ≤ n ∧ n - sumSeats st.seats ≤ (continuing st.alloc).length)) →
+      (if st.final then 1 else (continuing st.alloc).length + 2) ≤ fuel →
+      runCounts gregory cfg (selectorInput votes n) fuel st = .error .notImplemented ∨
+      ∃ st', runCounts gregory cfg (selectorInput votes n) fuel st = .ok st' ∧ sumSeats st'.seats = n := by
+  intro fuel
+  induction fuel with
+  | zero => intro st _ _ hf; split at hf <;> omega
+  | succ k ih =>
+    intro st hr hc hf
+    have hi := reach_inv gregory_ok hr
+    have hj := shape_reach gregory_ok hr
+    by_cases hsum : sumSeats st.seats = n
+    · right
+      refine ⟨st, ?_, hsum⟩
+      simp only [runCounts, countStep, selectorInput, hsum, if_true]
+    · have hfin : st.final = false := by
+        cases hf' : st.final with
+        | false => rfl
+        | true => exact absurd (hi.fin hf') hsum
+      rcases hc with hc | ⟨hle, hm⟩
+      · rw [hfin] at hc; cases hc
+      have hp := step_progress hh hi hj hfin (by omega) hm
+      rw [hfin] at hf
+      simp only [Bool.false_eq_true, if_false] at hf
+      generalize hcs : countStep gregory cfg (selectorInput votes n) st = r at hp
+      cases hp with
+      | refuse => left; simp only [runCounts, hcs]
+      | done st' hf' =>
+        have := ih st' (.step hr hcs) (Or.inl hf') (by rw [hf']; simp; omega)
+        simpa only [runCounts, hcs] using this
+      | on st' hf' hlt hle' hm' =>
+        have := ih st' (.step hr hcs) (Or.inr ⟨hle', hm'⟩) (by rw [hf']; simp; omega)
+        simpa only [runCounts, hcs] using this
+
+theorem gregory_initState_ok (inp : Input) (ds : List Draw) : ∃ st, initState gregory inp ds = .ok st := by
+  obtain ⟨a, ha⟩ := gregory_movePile_ok (allRanked inp.votes) none (fictionalPile inp.votes) (firstPrefs inp.votes) ds
+  exact ⟨_, by unfold initState initialAllocation; rw [ha]⟩
+
+/-- **No stall.**  Selector form, Gregory transfer, `eliminate_step = -1`, no `mandatory_quota`, a positive
+    quota (or none) and between one and #candidates seats: the evaluation returns a list or refuses with
+    `NotImplementedError` — never `VotingSystemError('infinite loop in STV')`, never anything else. -/
+theorem selector_total {votes : Profile} {cfg : Cfg} {n : Nat} (hh : TotalHyp cfg votes n)
+    (hn : n ≤ (allRanked votes).length) (ds : List Draw) :
+    selectorEvaluate gregory cfg votes n ds = .error .notImplemented ∨
+    ∃ l, selectorEvaluate gregory cfg votes n ds = .ok l := by
+  obtain ⟨st0, h0⟩ := gregory_initState_ok (selectorInput votes n) ds
+  obtain ⟨hi0, hf0, hs0, _⟩ := initState_inv (cfg := cfg) gregory_ok h0
+  have hc0 : continuing st0.alloc = allRanked votes := by
+    unfold initState at h0
+    split at h0
+    · cases h0
+    · rename_i a ds' hinit
+      injection h0 with h0; subst h0
+      exact (init_inv gregory_ok hinit).cont_eq
+  simp only [selectorInput] at hs0
+  have hrun := run_total hh (evalFuel (selectorInput votes n)) st0 (.init h0)
+    (Or.inr ⟨by rw [hs0]; simp [sumSeats], by rw [hs0, hc0]; simp [sumSeats]; exact hn⟩)
+    (by rw [hf0, hc0]; simp [evalFuel, selectorInput])
+  unfold selectorEvaluate distributorEvaluate
+  rw [h0]
+  simp only [bind, Except.bind]
+  rcases hrun with he | ⟨st', hok, hsum⟩
+  · left; rw [he]
+  · right
+    rw [hok]
+    have : finished (selectorInput votes n) st' = true := by simp [finished, selectorInput, hsum]
+    simp only [this, if_true, pure, Except.pure]
+    exact ⟨_, rfl⟩
+
 end VL.STV
